@@ -428,6 +428,19 @@ func backwardSlice(v ssa.Value, stop func(ssa.Value) bool) map[ssa.Value]bool {
 				if st, ok := r.(*ssa.Store); ok && st.Addr == a {
 					walk(st.Val)
 				}
+				// stores into elements/fields of the cell (array literals, varargs, struct literals)
+				if ea, ok := r.(ssa.Value); ok {
+					switch ea.(type) {
+					case *ssa.IndexAddr, *ssa.FieldAddr:
+						if ea.Referrers() != nil {
+							for _, r2 := range *ea.Referrers() {
+								if st, ok := r2.(*ssa.Store); ok && st.Addr == ea {
+									walk(st.Val)
+								}
+							}
+						}
+					}
+				}
 			}
 		}
 		// a load from a local alloc depends on every store to it
@@ -470,8 +483,8 @@ func nilCmp(cond ssa.Value) (ssa.Value, bool, bool) {
 func returnsOf(f *ssa.Function) []*ssa.Return {
 	var out []*ssa.Return
 	for _, b := range f.Blocks {
-		if len(b.Instrs) == 0 {
-			continue
+		if len(b.Instrs) == 0 || b == f.Recover {
+			continue // the recover block of a function with defers is not part of the normal control flow
 		}
 		if r, ok := b.Instrs[len(b.Instrs)-1].(*ssa.Return); ok {
 			out = append(out, r)
@@ -522,4 +535,32 @@ func sameValue(a, b ssa.Value) bool {
 		}
 	}
 	return false
+}
+
+// resultOf returns the i-th returned value, looking through the result spilling go/ssa performs in functions with
+// defers (`*res = v; rundefers; t = *res; return t`).
+func resultOf(r *ssa.Return, i int) ssa.Value {
+	v := r.Results[i]
+	u, ok := v.(*ssa.UnOp)
+	if !ok || u.Op != token.MUL {
+		return v
+	}
+	al, ok := u.X.(*ssa.Alloc)
+	if !ok {
+		return v
+	}
+	// last store to the cell in the return block before the load
+	var last ssa.Value
+	for _, in := range r.Block().Instrs {
+		if in == ssa.Instruction(u) {
+			break
+		}
+		if st, ok := in.(*ssa.Store); ok && st.Addr == ssa.Value(al) {
+			last = st.Val
+		}
+	}
+	if last != nil {
+		return last
+	}
+	return v
 }
